@@ -31,6 +31,7 @@
 
 
 #include <xalanc/XPath/XObjectFactory.hpp>
+#include <xalanc/XPath/XPathCharacters.hpp>
 #include <xalanc/XPath/XPathEnvSupportDefault.hpp>
 
 
@@ -64,6 +65,21 @@ const XalanDOMChar  XalanEXSLTFunctionAlign::s_rightString[] =
 
 
 
+// The number of code units that the first theCount characters of a string
+// occupy.  thePairs is the number of surrogate pairs in the string.
+static XalanDOMString::size_type
+unitsOfCharacters(
+            const XalanDOMString&       theString,
+            XalanDOMString::size_type   thePairs,
+            XalanDOMString::size_type   theCount)
+{
+    return thePairs == 0 ?
+                theCount :
+                XPathCharacters::unitsOf(theString.c_str(), theString.length(), theCount);
+}
+
+
+
 XObjectPtr
 XalanEXSLTFunctionAlign::execute(
             XPathExecutionContext&          executionContext,
@@ -89,8 +105,15 @@ XalanEXSLTFunctionAlign::execute(
     const XalanDOMString&   theTargetString = args[0]->str(executionContext);
     const XalanDOMString&   thePaddingString = args[1]->str(executionContext);
 
-    const XalanDOMString::size_type     theTargetStringLength = theTargetString.length();
-    const XalanDOMString::size_type     thePaddingStringLength = thePaddingString.length();
+    // The lengths are numbers of characters: a surrogate pair is one character.
+    const XalanDOMString::size_type     theTargetStringUnits = theTargetString.length();
+    const XalanDOMString::size_type     thePaddingStringUnits = thePaddingString.length();
+    const XalanDOMString::size_type     theTargetStringPairs =
+        XPathCharacters::countPairs(theTargetString.c_str(), theTargetStringUnits);
+    const XalanDOMString::size_type     thePaddingStringPairs =
+        XPathCharacters::countPairs(thePaddingString.c_str(), thePaddingStringUnits);
+    const XalanDOMString::size_type     theTargetStringLength = theTargetStringUnits - theTargetStringPairs;
+    const XalanDOMString::size_type     thePaddingStringLength = thePaddingStringUnits - thePaddingStringPairs;
 
     if (theTargetStringLength == thePaddingStringLength)
     {
@@ -104,11 +127,14 @@ XalanEXSLTFunctionAlign::execute(
 
         if (theTargetStringLength > thePaddingStringLength)
         {
-            theResult.assign(theTargetString, 0, thePaddingStringLength);
+            theResult.assign(
+                theTargetString,
+                0,
+                unitsOfCharacters(theTargetString, theTargetStringPairs, thePaddingStringLength));
         }
         else
         {
-            theResult.reserve(thePaddingStringLength);
+            theResult.reserve(thePaddingStringUnits + theTargetStringUnits);
 
             enum eAlignment { eCenter, eLeft, eRight };
 
@@ -140,11 +166,20 @@ XalanEXSLTFunctionAlign::execute(
             {
                 theResult = theTargetString;
 
-                theResult.append(thePaddingString, theTargetStringLength, thePaddingStringLength - theTargetStringLength);
+                const XalanDOMString::size_type     theOffset =
+                    unitsOfCharacters(thePaddingString, thePaddingStringPairs, theTargetStringLength);
+
+                theResult.append(thePaddingString, theOffset, thePaddingStringUnits - theOffset);
             }
             else if (theAlignment == eRight)
             {
-                theResult.assign(thePaddingString, 0, thePaddingStringLength - theTargetStringLength);
+                theResult.assign(
+                    thePaddingString,
+                    0,
+                    unitsOfCharacters(
+                        thePaddingString,
+                        thePaddingStringPairs,
+                        thePaddingStringLength - theTargetStringLength));
                 theResult.append(theTargetString);
             }
             else if (theAlignment == eCenter)
@@ -152,14 +187,20 @@ XalanEXSLTFunctionAlign::execute(
                 const XalanDOMString::size_type     theStartIndex =
                     (thePaddingStringLength - theTargetStringLength) / 2;
 
-                theResult.assign(thePaddingString, 0, theStartIndex);
+                theResult.assign(
+                    thePaddingString,
+                    0,
+                    unitsOfCharacters(thePaddingString, thePaddingStringPairs, theStartIndex));
 
                 theResult.append(theTargetString);
 
-                theResult.append(
-                    thePaddingString,
-                    theTargetStringLength + theStartIndex,
-                    thePaddingStringLength - theTargetStringLength - theStartIndex);
+                const XalanDOMString::size_type     theOffset =
+                    unitsOfCharacters(
+                        thePaddingString,
+                        thePaddingStringPairs,
+                        theTargetStringLength + theStartIndex);
+
+                theResult.append(thePaddingString, theOffset, thePaddingStringUnits - theOffset);
             }
         }
 
@@ -249,7 +290,11 @@ XalanEXSLTFunctionPadding::execute(
 
     const double                        theLength = DoubleSupport::round(args[0]->num(executionContext));
     const XalanDOMString&               thePaddingString = theSize == 2 ? args[1]->str(executionContext) : m_space;
-    const XalanDOMString::size_type     thePaddingStringLength = thePaddingString.length();
+    // The lengths are numbers of characters: a surrogate pair is one character.
+    const XalanDOMString::size_type     thePaddingStringUnits = thePaddingString.length();
+    const XalanDOMString::size_type     thePaddingStringPairs =
+        XPathCharacters::countPairs(thePaddingString.c_str(), thePaddingStringUnits);
+    const XalanDOMString::size_type     thePaddingStringLength = thePaddingStringUnits - thePaddingStringPairs;
 
     // A length that is NaN, less than one, or too large to be the length of
     // a string must not be converted to size_type: the result is empty.
@@ -265,7 +310,7 @@ XalanEXSLTFunctionPadding::execute(
 
         XalanDOMString&     theResult = theGuard.get();
 
-        if (thePaddingStringLength == 1)
+        if (thePaddingStringUnits == 1)
         {
             theResult.assign(XalanDOMString::size_type(theLength), thePaddingString[0]);
         }
@@ -286,7 +331,7 @@ XalanEXSLTFunctionPadding::execute(
                     theResult.append(
                         thePaddingString,
                         0,
-                        XalanDOMString::size_type(theRemainingLength));
+                        unitsOfCharacters(thePaddingString, thePaddingStringPairs, theRemainingLength));
 
                     break;
                 }
